@@ -23,7 +23,7 @@ def configs(tier):
         archs = [(1, 1, 1), (2, 1, 2), (2, 2, 1), (1, 2, 2)]
     else:
         archs = [(a, b, c) for a in (1, 2, 3) for b in (1, 2, 3) for c in (1, 2, 3)] + [(2, 4, 2), (2, 2, 4), (4, 1, 1), (1, 4, 4)]
-    hist = [{"nv": 2, "nh": 1, "na": 2, "via": "deepcopy"}, {"nv": 1, "nh": 1, "na": 1, "via": "pickle"}]
+    hist = [{"nv": 2, "nh": 1, "na": 2, "grad": "off"}, {"nv": 1, "nh": 1, "na": 1, "grad": "off"}, {"nv": 2, "nh": 1, "na": 2, "via": "deepcopy"}, {"nv": 1, "nh": 1, "na": 1, "via": "pickle"}]
     return [{"nv": a, "nh": b, "na": c} for (a, b, c) in archs] + hist + [{"generic": "every shape"}, {"lean": "size-generic lemmas"}, {"independence": "mixed"}]
 
 
